@@ -32,7 +32,11 @@ def b3_configs(tier):
                                            props=store.PROPS_RUNS, timeout=3000)),
             ("histories-3-runs-len3", dict(spans=u, maxlen=3, batches=(1, 2, 5), buffers=(0, 1), maxruns=3,
                                            clean_on=True, same_files=True, runflags=FLAGS, invs=store.INVS_ALL,
-                                           props=store.PROPS_RUNS, timeout=3000))]
+                                           props=store.PROPS_RUNS, timeout=3000)),
+            # beyond what finishes exhaustively: random behaviours of longer histories over the whole span universe
+            ("simulate-6-runs-len7", dict(spans=u, maxlen=7, batches=(1, 2, 3, 5, 9), buffers=(0, 1, 2), maxruns=6,
+                                          clean_on=True, same_files=True, runflags=FLAGS, invs=store.INVS_ALL,
+                                          simulate="num=30000", depth=200, workers=8, timeout=3000))]
 
 
 from storecli import cli_family  # noqa: E402
